@@ -60,6 +60,7 @@ static void case_c08(const args_t *a, long c, rng_t *r)
 	static const size_t BS[] = {1, 1024, 1024, 1500, 4096};
 	cfg.block_size = PICK(r, BS);
 	snprintf(path, sizeof path, "%s/c08-%ld.mtbl", a->workdir, c);
+	wcfg_stats(&cfg);
 	unlink(path);
 	struct mtbl_threadpool *pool = wcfg_pool(&cfg);
 	int fd;
@@ -106,7 +107,7 @@ static void case_c08(const args_t *a, long c, rng_t *r)
 	if (pool) mtbl_threadpool_destroy(&pool);
 	if (want_sample()) sample("c08: %zu adds (%s), first 12: %s", nadds, wcfg_str(&cfg), sample_buf);
 	/* finished file == accepted entries: decoder and reader */
-	size_t len; uint8_t *data = read_file(path, &len);
+	size_t len; uint8_t *data = map_file(path, &len);
 	rd_file_t f;
 	if (!data || rd_parse(data, len, (int64_t)cfg.prefix_len, &f) != 0) {
 		viol("C08/file-undecodable-after-refusals", "finished file does not decode: %s", data ? f.err : "unreadable");
@@ -128,7 +129,7 @@ static void case_c08(const args_t *a, long c, rng_t *r)
 		if (f.n_blocks > 1) STAT("c08.multi_block_files");
 		rd_free(&f);
 	}
-	free(data);
+	unmap_file(data, len);
 	struct mtbl_reader *rd = open_reader(path, &cfg);
 	if (!rd) viol("C08/reader-rejects-file", "reader NULL");
 	else {
@@ -218,6 +219,7 @@ int main(int argc, char **argv)
 {
 	args_t a;
 	parse_args(argc, argv, &a);
+	g_allow_huge_prefix = 1;
 	case_fn f = NULL;
 	if (!strcmp(a.sub, "c08")) f = case_c08;
 	else if (!strcmp(a.sub, "c08pre")) f = case_c08pre;
